@@ -88,16 +88,29 @@ def fault_case(seed, target_len, shift):
                 expr += t
         elif t is not None:
             expr += (seps[i] if i else '') + t
-    line = head + expr + tail
-    if g == 0:
-        lo = len(head) + 1 if head.strip() else 1
-        lo = min(lo, pos_fault)
+    indent = rnd.choice(['', '', '  ', '    ', '\t'])
+    line = indent + head + expr + tail
+    phys = [line]
+    if rnd.random() < 0.4:
+        # continue the faulty line over several physical lines (split at blanks outside quotes)
+        from .c10 import blank_positions
+        for _ in range(rnd.choice([1, 2])):
+            pos = [q for q in blank_positions(phys[-1]) if q > len(indent) + 1]
+            if not pos:
+                break
+            q = rnd.choice(pos)
+            last = phys.pop()
+            phys += [last[:q] + ' \\' + rnd.choice(['', '  ']), rnd.choice(['', '      ']) + last[q + 1:]]
+    logical = phys[0] if len(phys) == 1 else ' '.join([(phys[0].rstrip()[:-1]).rstrip()] + [(x.rstrip()[:-1] if x.rstrip().endswith('\\') else x).strip() for x in phys[1:]])
+    pos_fault = logical.index('@') + 1
+    lo = len(logical[:pos_fault - 1].rstrip()) + 1
+    lo = min(lo, pos_fault)
     # surroundings
     before = rnd.choice([[], ['# comment'], ['# comment', 'a0 = 1', ''], ['# comment', 'a0 = 1', '', 'b0 = a0 + 1 \\', '    + 2']])
     opener = {'elif': ['if a0:', 'b1 = 1'], 'jumpif': [], 'return': []}.get(kind, [])
     closer = {'if': ['endif'], 'elif': ['endif'], 'while': ['endwhile'], 'for': ['endfor']}.get(kind, [])
     # optionally split the faulty line with a continuation: the logical line is what the error must quote
-    lines = before + opener + [line] + (['c0 = 2'] if closer else []) + closer + (['lbl:'] if kind == 'jumpif' else [])
+    lines = before + opener + phys + (['c0 = 2'] if closer else []) + closer + (['lbl:'] if kind == 'jumpif' else [])
     fault_first = len(before) + len(opener) + 1
     text = '\n'.join(lines)
     start = rnd.choice([1, 1, 7, 100])
